@@ -23,47 +23,50 @@ type JPkgInfo struct {
 	StopLine          int
 }
 
-var methods []JFullMethod
-var fields = make(map[string]JField)
-var imports []JImport
 var pkgInfo JPkgInfo
 
+// JFullIdentifier carries what the refactor listener read in ONE file: the tables are
+// members of the value, so the result of a file survives the analysis of the next one.
 type JFullIdentifier struct {
-	Pkg  string
-	Name string
-	Type string
+	Pkg      string
+	Name     string
+	Type     string
+	FilePath string
+
+	methods []JFullMethod
+	fields  map[string]JField
+	imports []JImport
 }
 
 func NewJFullIdentifier() JFullIdentifier {
-	identifier := JFullIdentifier{"", "", ""}
-	methods = nil
-	fields = make(map[string]JField)
-	imports = nil
-	return identifier
+	return JFullIdentifier{fields: make(map[string]JField)}
 }
 
 func (identifier *JFullIdentifier) AddMethod(method JFullMethod) {
-	methods = append(methods, method)
+	identifier.methods = append(identifier.methods, method)
 }
 
 func (identifier *JFullIdentifier) GetMethods() []JFullMethod {
-	return methods
+	return identifier.methods
 }
 
 func (identifier *JFullIdentifier) AddField(field JField) {
-	fields[field.Name] = field
+	if identifier.fields == nil {
+		identifier.fields = make(map[string]JField)
+	}
+	identifier.fields[field.Name] = field
 }
 
 func (identifier *JFullIdentifier) GetFields() map[string]JField {
-	return fields
+	return identifier.fields
 }
 
 func (identifier *JFullIdentifier) AddImport(jImport JImport) {
-	imports = append(imports, jImport)
+	identifier.imports = append(identifier.imports, jImport)
 }
 
 func (identifier *JFullIdentifier) GetImports() []JImport {
-	return imports
+	return identifier.imports
 }
 
 func (identifier *JFullIdentifier) SetPkgInfo(info JPkgInfo) {
